@@ -39,7 +39,7 @@ var c19Statuses = []int{200, 201, 204, 301, 302, 400, 404, 500}
 var c19Callbacks = []string{"cb", "angular.callbacks._0", "$cb", "a[0]", "jQuery1_2", "回调"}
 
 type c19Case struct {
-	Kind   string `json:"kind"` // helper | render | negotiate | after
+	Kind   string `json:"kind"` // helper | render | negotiate | after | standalone
 	Helper string `json:"helper,omitempty"`
 	First  int    `json:"first,omitempty"`
 	MaxLen int    `json:"max_accept_entries,omitempty"`
@@ -75,6 +75,7 @@ func c19Gen(tier string, emit func(c19Case)) {
 	}
 	emit(c19Case{Kind: "render"})
 	emit(c19Case{Kind: "after"})
+	emit(c19Case{Kind: "standalone"})
 	for i := 0; i < len(c19Accepts); i++ {
 		emit(c19Case{Kind: "negotiate", First: i, MaxLen: map[string]int{"quick": 3, "thorough": 4}[tier]})
 	}
@@ -183,6 +184,35 @@ func c19Run(c c19Case, st *fw.Stats) []fw.Viol {
 		if len(vs) < 6 {
 			vs = append(vs, fw.Viol{Sig: sig, Msg: msg})
 		}
+	}
+	if c.Kind == "standalone" {
+		// a handler used directly as an http.Handler (rux.HandlerFunc.ServeHTTP builds a context that belongs to no
+		// router): the helpers produce the same body and type, and an encoding failure is still recorded, not a panic
+		for k, h := range c19Catalogue() {
+			st.Evals++
+			st.Nontrivial++
+			var errs []error
+			hf := rux.HandlerFunc(func(c *rux.Context) {
+				h.f(c)
+				errs = append(errs, c.Errors...)
+			})
+			w := httptest.NewRecorder()
+			req := httptest.NewRequest("GET", "/x", nil)
+			req.Header.Set("Referer", "/back")
+			if pv := try(func() { hf.ServeHTTP(w, req) }); pv != nil {
+				add("helper:panic-on-standalone-context", fmt.Sprintf("%s on the context of a handler used directly as http.Handler panicked: %v", h.name, pv))
+				continue
+			}
+			got := fmt.Sprintf("Content-Type=%q body=%q errors=%d", w.Header().Get("Content-Type"), w.Body.String(), len(errs))
+			want := c19Pristine[k]
+			if i := strings.Index(want, "Content-Type="); i >= 0 {
+				want = strings.TrimSuffix(want[i:], " panic=<nil>")
+			}
+			if got != want {
+				add("helper:standalone-context", fmt.Sprintf("%s on the context of a handler used directly as http.Handler produces %s; through a router it produces %s", h.name, got, want))
+			}
+		}
+		return vs
 	}
 	if c.Kind == "after" {
 		// one response built by TWO helper calls in a row (an encoder that failed followed by an error page, say), then
@@ -546,7 +576,7 @@ func c19Run(c c19Case, st *fw.Stats) []fw.Viol {
 var c19Spec = fw.Spec[c19Case]{
 	ID:    "C19",
 	Level: "model_checking",
-	Rule: "complete product: every helper alone on a fresh router after every ordered pair of 13 helper calls built one earlier response (differential against the pristine process); 11 context helpers x 8 status codes x value alphabets (7 strings with HTML / unicode / control characters; maps, structs, pointers, byte and int slices, scalars; unencodable chan / func / NaN / Inf / cyclic values) x preset Content-Type absent / present x another status already selected by an earlier handler; 11 pkg/render functions x 3 preset Content-Types; render.Auto x ALL Accept lists of <=3 (thorough 4) entries over 10 entries (the five supported MIME strings, foo/bar, */*, q-parameters, empty); " +
+	Rule: "complete product: every helper on the context of a handler used directly as http.Handler; every helper alone on a fresh router after every ordered pair of 13 helper calls built one earlier response (differential against the pristine process); 11 context helpers x 8 status codes x value alphabets (7 strings with HTML / unicode / control characters; maps, structs, pointers, byte and int slices, scalars; unencodable chan / func / NaN / Inf / cyclic values) x preset Content-Type absent / present x another status already selected by an earlier handler; 11 pkg/render functions x 3 preset Content-Types; render.Auto x ALL Accept lists of <=3 (thorough 4) entries over 10 entries (the five supported MIME strings, foo/bar, */*, q-parameters, empty); " +
 		"oracle: recorded status, documented Content-Type (preset preserved by every pkg/render renderer), body decodes back (JSONP unwrapped), first supported entry wins, encoding failures land in Context.Errors / the returned error; every evaluation is non-trivial except single-entry Accept lists",
 	Assume: []string{"text/html negotiation is the code's documented no-op and is modelled as such", "XML round trips use one struct type; encoding/xml has no cycle detection so cyclic values are not offered to it"},
 	Bounds: func(tier string) map[string]any {
